@@ -63,6 +63,7 @@ Definition iter_ao (mk : modk) (sg : sig) : option (nat * nat) :=
   | MReduce | MScan => Some (Nat.max (sa sg - so sg) 1, so sg)
   | MRows | MEach | MInventory | MTable | MTuples => Some (sa sg, so sg)
   | MFold => if Nat.eqb (sa sg) 0 && Nat.eqb (so sg) 0 then None
+             else if Nat.eqb (sa sg) 0 then Some (0, so sg)
              else if sa sg <=? so sg then Some (sa sg, so sg + 1 - sa sg) else Some (sa sg, so sg)
   | MGroup | MPartition => Some (Nat.max (sa sg) 1 + 1, so sg)
   | MSpawn | MPool => Some (sa sg, 1)
@@ -194,7 +195,8 @@ Section Exec.
                 (* discard the deepest excess arguments: stack.drain(discard_start..discard_end) *)
                 let len := length rest in
                 let dstart := len - sa sg in
-                let dend := Nat.max dstart ((dstart + sa sg + so fs) - (sa fs + so sg)) in
+                let dend := Nat.min (Nat.max dstart ((dstart + sa sg + so fs) - (sa fs + so sg)))
+                                    (dstart + (sa sg - sa fs)) in
                 if len <? dend then Err false (set_stk s rest) else
                 let rest' := firstn (len - dend) rest ++ skipn (len - dstart) rest in
                 bind (ex f (set_stk s rest')) (fun s2 =>
